@@ -361,7 +361,7 @@ def shrink_candidates(c):
 def run(ctx):
     proof = core.coq_properties("C07")
     ctx.say("proof stage: ok=%s theorems=%d audit=%d (%.1fs)" % (proof["ok"], len(proof["theorems"]), len(proof["audit"]), proof.get("wall_s", 0)))
-    n = ctx.scale(800, 30000)
+    n = ctx.scale(2000, 60000)
     cases = [gen_case(ctx.rng) for _ in range(n)]
     cov = core.differential(ctx, "fsm", proof, cases, sim_line, oracle, norm_impl=norm_impl, norm_model=norm_model,
                             model_line_of=model_line, shrink_candidates=shrink_candidates,
